@@ -1,7 +1,40 @@
-"""C19 units: the location order of linear referencing (LinearLocation::compareLocationValues, static six-argument form), with the
-indices and the fractions read as integers (Lib.GenPreludeZ): the branch structure is what the model's cmp_loc is proved equal to."""
+"""C19 units.
+LR_compareLocationValues: the location order of linear referencing (LinearLocation::compareLocationValues, static six-argument
+form), with the indices and the fractions read as integers (Lib.GenPreludeZ): the branch structure is what the model's cmp_loc
+is proved equal to.
+All other units: the leaf arithmetic of linear referencing with `double` read as a REAL number (C19.GenPreludeLR = C08.GenPreludeR
++ LineSegment / LinearLocation / LengthIndexedLine objects); binary64 rounding is not modelled by them (the sampled
+correspondence of props/C19.py bounds it).  The C08 units C08_equals2D, C08_coordEq, C08_coordDist, C08_ptSeg are reused as
+callees (operator== on coordinates, CoordinateXY::distance, Distance::pointToSegment)."""
 LL = 'src/linearref/LinearLocation.cpp'
+LS = 'src/geom/LineSegment.cpp'
+LP = 'src/linearref/LengthIndexOfPoint.cpp'
+LI = 'src/linearref/LengthIndexedLine.cpp'
+R = ['C19.GenPreludeLR']
+
+
+def r(src, qual, n, gname, deps=(), **kw):
+    return dict(src=src, qual=qual, nparams=n, imports=R, imports_last=True, gname=gname, deps=list(deps), **kw)
+
+
 UNITS = {
     'LR_compareLocationValues': dict(src=LL, qual='geos::linearref::LinearLocation::compareLocationValues', nparams=6,
                                      imports=['Lib.GenPreludeZ'], gname='g_compareLocationValues', imports_last=True),
+    # geos::geom::LineSegment (LineSegment.cpp and the inline members of LineSegment.h reached through its includes)
+    'LR_projectionFactor': r(LS, 'geos::geom::LineSegment::projectionFactor', 1, 'm_projectionFactor_1', ['C08_coordEq']),
+    'LR_segLength': r(LS, 'geos::geom::LineSegment::getLength', 0, 'm_getLength_0', ['C08_coordDist']),
+    'LR_segDistance': r(LS, 'geos::geom::LineSegment::distance', 1, 'g_segDistance', ['C08_ptSeg'], ptypes=['CoordinateXY'],
+                        aliases={'c_pointToSegment_3': 'g_pointToSegment'}),
+    # geos::linearref::LengthIndexOfPoint
+    'LR_segmentNearestMeasure': r(LP, 'geos::linearref::LengthIndexOfPoint::segmentNearestMeasure', 3, 'g_segmentNearestMeasure',
+                                  ['LR_projectionFactor', 'LR_segLength']),
+    # geos::linearref::LinearLocation (member forms)
+    'LR_compareTo': r(LL, 'geos::linearref::LinearLocation::compareTo', 1, 'g_compareTo', param_types={'other': 'rloc'}),
+    'LR_isOnSameSegment': r(LL, 'geos::linearref::LinearLocation::isOnSameSegment', 1, 'g_isOnSameSegment', param_types={'loc': 'rloc'}),
+    'LR_isVertex': r(LL, 'geos::linearref::LinearLocation::isVertex', 0, 'g_isVertex'),
+    'LR_normalize': r(LL, 'geos::linearref::LinearLocation::normalize', 0, 'g_normalize'),
+    # geos::linearref::LengthIndexedLine: the index conventions (negative index = from the end, clamped to [start, end])
+    'LR_positiveIndex': r(LI, 'geos::linearref::LengthIndexedLine::positiveIndex', 1, 'm_positiveIndex_1',
+                          aliases={'m_getLength_0': 'm_getLength_0g'}),
+    'LR_clampIndex': r(LI, 'geos::linearref::LengthIndexedLine::clampIndex', 1, 'g_clampIndex', ['LR_positiveIndex']),
 }
